@@ -133,11 +133,15 @@ class OpWorld(World):
         self.live_views = {}
         self.side = "impl"
         self.dsnaps = {"impl": [], "spec": []}
+        #: (what, scheduler object) for every clock reading / timer / clock-reading callee stage of the real code: one subscription, one clock
+        self.clock_users = []
 
     def getattr(self, it, o, name):
         if o.kind == "scheduler" and name == "now":
             if self.now_term is None:
                 raise Unsupported("scheduler.now outside a timed contract")
+            if getattr(self, "side", "impl") == "impl":
+                self.clock_users.append(("reads the clock of", o))
             return IntSV(self.now_term)
         return super().getattr(it, o, name)
 
@@ -164,6 +168,8 @@ class OpWorld(World):
             action = a[1]
             state = kwargs.get("state", a[2] if len(a) > 2 else None)
         h = Opaque("disposable", f"timer:{len(self.timers)}")
+        if getattr(self, "side", "impl") == "impl" and getattr(self, "_sched_obj", None) is not None:
+            self.clock_users.append(("sets a timer on", self._sched_obj))
         self.timers.append({"due": z3.simplify(due), "action": action, "state": state, "handle": h})
         self.struct["impl"].append(("timer", z3.simplify(due)))
         self.events.append(("timer", due))
@@ -398,6 +404,15 @@ class OpWorld(World):
             s.fields[n] = v
         for sname in c.sources:
             s.fields[sname] = o.attrs["source"]
+        if getattr(self, "side", "impl") == "impl":
+            # a callee stage that reads the clock (timestamp(), time_interval() without a scheduler of their own) reads the clock of the scheduler
+            # THIS subscription is made with
+            st_o = o
+            while isinstance(st_o, Opaque) and st_o.kind == "specobs":
+                cc = st_o.attrs["contract"]
+                if getattr(cc, "timed", False) and st_o.attrs["params"].get("scheduler") is None:
+                    self.clock_users.append((f"subscribes the clock-reading stage {cc.name} with", kwargs.get("scheduler")))
+                st_o = st_o.attrs.get("source")
         idx = len(self.cspecs)
         state = {"stopped": False, "in_stopped": False}
         out = Opaque("observer", f"stage{idx}", handlers=tuple(hs), state=state, side=getattr(self, "side", "impl"))
@@ -615,7 +630,11 @@ class OpWorld(World):
                     self.harness.sync_subs = [x[3] for x in self.subs[n0:]]
             return d
         if k == "scheduler" and method in ("schedule", "schedule_relative", "schedule_absolute"):
-            return self.schedule_timer(it, method, args, kwargs)
+            self._sched_obj = o
+            try:
+                return self.schedule_timer(it, method, args, kwargs)
+            finally:
+                self._sched_obj = None
         if k == "scheduler" and method in ("to_seconds", "to_timedelta", "to_datetime"):
             return args[0]  # A-time: representations of the same instant / span
         if k == "observer" and o.name == "spec_out" and method in ("schedule_relative", "schedule_absolute", "schedule"):
@@ -1352,6 +1371,14 @@ class OpHarness:
 
     def scheduler_handed_on(self, ctx, oid):
         misses, self.sched_misses = getattr(self, "sched_misses", []), []
+        users = list(getattr(self.w, "clock_users", []))
+        if users:
+            distinct = []
+            for what, sch in users:
+                if not any(sch is d for _w, d in distinct):
+                    distinct.append((what, sch))
+            self.record(ctx, oid + "/one-subscription-one-clock (clock readings, timers and clock-reading stages are on the same scheduler)", len(distinct) <= 1, kind="frame",
+                        detail="; ".join(f"{what} {getattr(sch, 'name', sch)!s}" for what, sch in distinct))
         if getattr(self, "sub_sched", None) is None:
             return
         self.record(ctx, oid + "/hands-the-subscribe-time-scheduler-on-to-every-source-it-subscribes", not misses, kind="frame",
